@@ -13,7 +13,7 @@ def run_cases(vh, cases, workdir, tag="sched"):
     mo_obs = os.path.join(workdir, tag + ".model.obs")
     r = common.run(["timeout", "1800", vh, "sched", cp, go_obs])
     if r.returncode != 0:
-        raise RuntimeError("go harness (sched) failed: rc=%d %s" % (r.returncode, (r.stdout + r.stderr)[-2000:]))
+        raise RuntimeError("go harness (sched) failed: rc=%d %s ... %s" % (r.returncode, (r.stdout + r.stderr)[:1500], (r.stdout + r.stderr)[-1500:]))
     r = common.run(["timeout", "3600", CONCDRIVER, cp, go_obs, mo_obs])
     if r.returncode != 0:
         raise RuntimeError("model driver (sched) failed: " + (r.stdout + r.stderr)[-2000:])
@@ -381,6 +381,10 @@ def monitor_run(pid, case, run):
                         if not ok:
                             viol.append(dict(step=i, what="thread %d in %s holds %s%s: more than a parent and child (plus fresh sibling)" % (t2, op, paths, " + tree mutex" if T == t2 else "")))
                 # a thread parked in a callback or resting cursor holds exactly one leaf
+                if cur_op.get(w) == "U" and not returned and not any(e.startswith("inv:") for e in st["ev"]) and re.search(r"\bw%d=-(?: |$)" % w, s["pend"]):
+                    hw = held.get(w, [])
+                    if len(hw) != 1 or hw[0][1] != "L" or T == w:
+                        viol.append(dict(step=i, what="thread %d runs its Update callback holding %s%s (expected exactly one leaf)" % (w, hw, " + tree mutex" if T == w else "")))
                 if any(e.startswith("pair:") for e in st["ev"]):
                     hw = held.get(w, [])
                     if len(hw) != 1 or hw[0][1] != "L":
